@@ -9,6 +9,7 @@ import (
 	"github.com/hashicorp/hcl-lang/schema"
 	"github.com/hashicorp/hcl/v2"
 	"github.com/hashicorp/hcl/v2/hclsyntax"
+	"github.com/hashicorp/hcl/v2/json"
 	"github.com/zclconf/go-cty/cty"
 )
 
@@ -73,6 +74,31 @@ func (bs blockSchema) DependentBodySchema(block *hcl.Block) (*schema.BodySchema,
 	return depBodySchema, dks, result
 }
 
+// singleTraversal returns the traversal the expression consists of:
+// a reference in the native syntax, or a "${...}" template
+// wrapping nothing but a single reference in JSON.
+func singleTraversal(expr hcl.Expression) (hcl.Traversal, bool) {
+	if st, ok := expr.(*hclsyntax.ScopeTraversalExpr); ok {
+		return st.AsTraversal(), true
+	}
+
+	if json.IsJSONExpression(expr) {
+		// Given the limited AST/API access to JSON we can only
+		// guess whether the expression has exactly a single traversal
+		vars := expr.Variables()
+		if len(vars) == 1 {
+			tRange := vars[0].SourceRange()
+			// account for "${ and }"
+			if tRange.Start.Byte-3 == expr.Range().Start.Byte &&
+				tRange.End.Byte+2 == expr.Range().End.Byte {
+				return vars[0], true
+			}
+		}
+	}
+
+	return nil, false
+}
+
 func dependencyKeysFromBlock(block *hcl.Block, blockSchema blockSchema) schema.DependencyKeys {
 	dk := schema.DependencyKeys{
 		Labels:     []schema.LabelDependent{},
@@ -108,9 +134,9 @@ func dependencyKeysFromBlock(block *hcl.Block, blockSchema blockSchema) schema.D
 			var value cty.Value
 			attr, ok := content.Attributes[name]
 			if ok {
-				st, ok := attr.Expr.(*hclsyntax.ScopeTraversalExpr)
+				traversal, ok := singleTraversal(attr.Expr)
 				if ok {
-					addr, err := lang.TraversalToAddress(st.AsTraversal())
+					addr, err := lang.TraversalToAddress(traversal)
 					if err != nil {
 						// skip unparsable traversal
 						continue
